@@ -12,3 +12,4 @@
 (declare-fun hnb (Int) Int)
 (declare-fun hblk (Int Int) Int)
 ;@ghost dwrote (Array Int Bool)
+;@ghost ixoid (Array Int Int)
